@@ -196,6 +196,30 @@ func (u *cryptUniverse) key(gen string) *cryptKey {
 
 func (u *cryptUniverse) nodeRec(gen string) *types.NodeCredentials {
 	g := cryptGens[gen]
+	nc := u.nodeRecBare(gen)
+	// what else such credentials carry has no say in the key agreement: every other universe gives them
+	// certificate bundles, alternately long expired and not yet valid (the certificates' dates are not key
+	// material), and state
+	switch cryptUniverseSeq.Add(1) % 4 {
+	case 1:
+		past := timestamppb.New(time.Now().Add(-400 * 24 * time.Hour))
+		nc.CertificateBundles = []*types.CertificateBundle{
+			{CertificateDer: []byte{0x30, 0x00}, CaCertificateDer: []byte{0x30, 0x00}, CertificateNotBefore: timestamppb.New(time.Now().Add(-800 * 24 * time.Hour)), CertificateNotAfter: past},
+			{CertificateDer: []byte{0x30, 0x00}, CaCertificateDer: []byte{0x30, 0x00}, CertificateNotBefore: timestamppb.New(time.Now().Add(-800 * 24 * time.Hour)), CertificateNotAfter: past},
+		}
+	case 3:
+		future := timestamppb.New(time.Now().Add(400 * 24 * time.Hour))
+		nc.CertificateBundles = []*types.CertificateBundle{{CertificateDer: []byte{0x30, 0x00}, CaCertificateDer: []byte{0x30, 0x00}, CertificateNotBefore: future, CertificateNotAfter: timestamppb.New(time.Now().Add(800 * 24 * time.Hour))}}
+		nc.State, _ = structpb.NewStruct(map[string]any{"k": "v"})
+	}
+	_ = g
+	return nc
+}
+
+var cryptUniverseSeq atomic.Int64
+
+func (u *cryptUniverse) nodeRecBare(gen string) *types.NodeCredentials {
+	g := cryptGens[gen]
 	return &types.NodeCredentials{
 		Id:                             string(nodeenrollment.CurrentId),
 		CertificatePublicKeyPkix:       u.cert[g.c].Pkix,
